@@ -696,7 +696,9 @@ fn message_json(c: &Certificate) -> Value {
 
 /// mutator id without the per-case tail: used in violation signatures
 fn class_of(id: &str) -> String {
-    id.to_string()
+    // "metadata.sealed_at/+1ns" -> "metadata.sealed_at": one signature per field, the concrete edit
+    // is in `what` / the replay file
+    id.split('/').next().unwrap_or(id).to_string()
 }
 
 pub fn part_a(cert: &Certificate, origin: &str, rng: &mut ChaCha20Rng, pools: &Pools, mon: &mut Monitor) {
@@ -760,8 +762,8 @@ pub fn part_a(cert: &Certificate, origin: &str, rng: &mut ChaCha20Rng, pools: &P
                     mon.v(
                         &format!("C04 certificate hash unchanged by single-field change: {}", class_of(&mu.id)),
                         &format!(
-                            "fields that differ: {:?}; both certificates hash to {h0} (origin: {origin})",
-                            changed
+                            "mutator {}: fields that differ: {:?}; both certificates hash to {h0} (origin: {origin})",
+                            mu.id, changed
                         ),
                         json!({"part":"a","mutator":mu.id,"changed_fields":changed,"hash":h0,
                                "certificate":message_json(cert),"mutant":message_json(&mu.cert)}),
@@ -981,6 +983,9 @@ pub fn part_b(rng: &mut ChaCha20Rng, pools: &Pools, mon: &mut Monitor) {
 
 #[derive(Debug, Clone, PartialEq, Eq)]
 pub enum Verdict {
+    /// not asked: the multi-signature claims a stake above the total stake of the aggregate key;
+    /// the lottery check of the working tree then runs for minutes to hours (see `claimed_stake_guard`)
+    Skipped,
     AcceptedGenesisOrFull,
     AcceptedWithPrevious(String),
     Rejected(String),
@@ -990,11 +995,34 @@ pub enum Verdict {
 impl Verdict {
     fn class(&self) -> String {
         match self {
+            Verdict::Skipped => "skipped".into(),
             Verdict::AcceptedGenesisOrFull => "accept(no previous)".into(),
             Verdict::AcceptedWithPrevious(h) => format!("accept(previous {h})"),
             Verdict::Rejected(_) => "reject".into(),
             Verdict::Panicked(l) => format!("panic@{}", vcore::panic_location(l)),
         }
+    }
+}
+
+/// false when some party of the multi-signature claims more stake than the aggregate key's total.
+/// `ConcatenationProof::verify` evaluates the lottery for the *claimed* stake before it checks the
+/// Merkle membership of the (key, stake) pair; with stake/total in the hundreds the Taylor
+/// comparison of `is_lottery_won` runs its 1000 iterations over exploding rationals (observed: more
+/// than 20 CPU-minutes for one certificate). That is a finding of its own (reported to the lead, it
+/// belongs to the lottery / verification properties), and the monitor must not hang on it.
+pub fn claimed_stake_guard(c: &Certificate) -> bool {
+    let CertificateSignature::MultiSignature(_, ms) = &c.signature else { return true };
+    let total = (|| -> Option<u64> {
+        let v: Value = serde_json::from_slice(&hex::decode(c.aggregate_verification_key.to_json_hex().ok()?).ok()?).ok()?;
+        v["total_stake"].as_u64()
+    })();
+    let claimed = (|| -> Option<u64> {
+        let v: Value = serde_json::from_slice(&hex::decode(ms.to_json_hex().ok()?).ok()?).ok()?;
+        v["signatures"].as_array()?.iter().filter_map(|p| p[1][1].as_u64()).max()
+    })();
+    match (total, claimed) {
+        (Some(t), Some(s)) => s <= t,
+        _ => true,
     }
 }
 
@@ -1009,6 +1037,29 @@ impl ChainCtx {
         ChainCtx { verifier: MithrilCertificateVerifier::new(logger, Arc::new(retriever), Arc::new(gv.clone())) }
     }
     pub fn verdict(&self, c: &Certificate) -> Verdict {
+        if !claimed_stake_guard(c) {
+            return Verdict::Skipped;
+        }
+        let trace = std::env::var("MON_WIRE_TRACE_SLOW").is_ok();
+        if trace {
+            let desc = format!(
+                "params={:?} epoch={:?} signed_message={} sig_kind={:?} avk={}",
+                c.metadata.protocol_parameters,
+                c.epoch,
+                c.signed_message,
+                c.signature.aggregate_signature_type(),
+                c.aggregate_verification_key.to_json_hex().map(|h| String::from_utf8_lossy(&hex::decode(h).unwrap_or_default()).to_string()).unwrap_or_default()
+            );
+            let desc = format!("{desc} MESSAGE={}", message_json(c));
+            slow_trace::enter(desc);
+        }
+        let v = self.verdict_inner(c);
+        if trace {
+            slow_trace::leave();
+        }
+        v
+    }
+    fn verdict_inner(&self, c: &Certificate) -> Verdict {
         match vcore::catch(|| block_on(self.verifier.verify_certificate(c))) {
             Ok(Ok(None)) => Verdict::AcceptedGenesisOrFull,
             Ok(Ok(Some(p))) => Verdict::AcceptedWithPrevious(p.hash),
@@ -1093,6 +1144,7 @@ pub fn part_c(cert: &Certificate, origin: &str, ctx: &ChainCtx, rng: &mut ChaCha
             Verdict::AcceptedGenesisOrFull | Verdict::AcceptedWithPrevious(_) => "accept",
             Verdict::Rejected(_) => "reject",
             Verdict::Panicked(_) => "panic",
+            Verdict::Skipped => "skipped (claimed stake above total stake)",
         }
     ));
     mon.count(if cert.is_genesis() { "c.kind.genesis" } else { "c.kind.standard" });
@@ -1181,7 +1233,7 @@ pub fn part_c(cert: &Certificate, origin: &str, ctx: &ChainCtx, rng: &mut ChaCha
         } else {
             mon.count("c.same_signed_message");
         }
-        let v2 = ctx.verdict(&c2);
+        let v2 = if v0 == Verdict::Skipped { Verdict::Skipped } else { ctx.verdict(&c2) };
         if v2.class() != v0.class() {
             if hash_changed {
                 // consequence of the changed hash, already reported
@@ -1399,4 +1451,59 @@ pub fn replay(_args: &vcore::Args, file: &std::path::Path) -> ! {
             std::process::exit(2)
         }
     }
+}
+
+/// debugging aid (MON_WIRE_TRACE_SLOW=1): prints the certificate of any verifier call that has
+/// been running for more than 5 s
+pub mod slow_trace {
+    use std::collections::HashMap;
+    use std::sync::{Mutex, Once};
+    use std::thread::ThreadId;
+    use std::time::Instant;
+    static SLOTS: Mutex<Option<HashMap<ThreadId, (Instant, String, bool)>>> = Mutex::new(None);
+    static START: Once = Once::new();
+    pub fn enter(desc: String) {
+        START.call_once(|| {
+            std::thread::spawn(|| loop {
+                std::thread::sleep(std::time::Duration::from_secs(1));
+                if let Ok(mut g) = SLOTS.lock() {
+                    if let Some(m) = g.as_mut() {
+                        for (_, (t, d, printed)) in m.iter_mut() {
+                            if !*printed && t.elapsed().as_secs() >= 5 {
+                                eprintln!("SLOW verifier call (>5s): {d}");
+                                *printed = true;
+                            }
+                        }
+                    }
+                }
+            });
+        });
+        let mut g = SLOTS.lock().unwrap();
+        g.get_or_insert_with(HashMap::new).insert(std::thread::current().id(), (Instant::now(), desc, false));
+    }
+    pub fn leave() {
+        let mut g = SLOTS.lock().unwrap();
+        if let Some(m) = g.as_mut() {
+            m.remove(&std::thread::current().id());
+        }
+    }
+}
+
+/// hidden helper: `mon-wire C04-time-verify <CertificateMessage.json>` times the multi-signature
+/// verification of one certificate (used to document the slow-lottery side finding)
+pub fn time_verify_main(argv: &[String]) -> ! {
+    let m: CertificateMessage = serde_json::from_slice(&std::fs::read(&argv[0]).expect("file")).expect("CertificateMessage JSON");
+    let c = Certificate::try_from(m).expect("certificate");
+    println!("claimed_stake_guard = {}", claimed_stake_guard(&c));
+    let CertificateSignature::MultiSignature(_, ms) = &c.signature else { std::process::exit(2) };
+    let t = std::time::Instant::now();
+    let r = ms.verify(
+        c.signed_message.as_bytes(),
+        &c.create_aggregate_verification_key(),
+        &c.metadata.protocol_parameters.clone().into(),
+        None,
+        None,
+    );
+    println!("verify -> {:?} after {:.1}s", r.map_err(|e| e.to_string()), t.elapsed().as_secs_f64());
+    std::process::exit(0)
 }
